@@ -337,4 +337,17 @@ CASES = {
         ('            if timeout is not None and time.time() - self._start_time > timeout:\n',
          '            if (timeout or 0) > 0 and time.time() - self._start_time > timeout:\n'),
     ]),
+    # rule gaps red team C reported on the side (the plain edit was silent as well): lower bound of decode, a second digit loop, a truncating cast
+    'Cg1': ('C03', 'sequence/alphabet.py', [
+        ('        if code < 0 or code >= len(self._symbols):\n            raise AlphabetError(f"\'{code:d}\' is not a valid code")\n        return chr(',
+         '        if code < -256 or code >= len(self._symbols):\n            raise AlphabetError(f"\'{code:d}\' is not a valid code")\n        return chr('),
+    ]),
+    'Cg2': ('C03', 'sequence/codon.py', [
+        ('        return codons\n\n    @staticmethod\n    def load',
+         '        wrong = np.zeros(numbers.shape + (3,), dtype=int)\n        for n in (0, 1, 2):\n            wrong[..., n] = numbers % _radix\n        return wrong\n\n    @staticmethod\n    def load'),
+    ]),
+    'Cg3': ('C14', 'structure/celllist.pyx', [
+        ('                    if sq_dist <= sq_radius:\n',
+         '                    if <int>sq_dist <= sq_radius:\n'),
+    ]),
 }
